@@ -49,6 +49,11 @@ enum Op {
     Idle5100,
     Idle400,
     Idle700,
+    // a response about a type nobody browses that also carries the address record of our
+    // instance's host again, with a short TTL (part "records-restated-by-foreign-responses" only)
+    ForeignRestatesAddr4,
+    ForeignRestatesAddr10,
+    Announce120,
 }
 /// Events of the focused cache-flush part: a flushing record moves the expiry of its older siblings
 /// to one second from now, which is time-driven work the daemon must wake itself for.
@@ -221,6 +226,14 @@ fn exec(seq: &[Op], dense: bool, horizon_ms: u64, trace: bool, fam: u8) -> Exec 
                     });
                 }
                 w.ds[0].ctl.set_intfs(t);
+            }
+            Op::ForeignRestatesAddr4 | Op::ForeignRestatesAddr10 => {
+                let ttl = if *op == Op::ForeignRestatesAddr4 { 4 } else { 10 };
+                let recs = vec![ptr(&n("_z._udp.local"), &n("other._z._udp.local"), 4500), a(&n("h.local"), [10, 0, 0, 9], ttl)];
+                w.deliver(0, IF0, peer0, build(&response(recs)));
+            }
+            Op::Announce120 => {
+                w.deliver(0, IF0, peer0, build(&response(i.all(120))));
             }
             Op::Idle5100 => adv(&mut w, 5100),
             Op::Idle400 => adv(&mut w, 400),
@@ -441,6 +454,20 @@ pub fn check(tier: &str) -> i32 {
         run: Box::new(move |i, tr| { let (v, fam) = lseq(i); run_case_fam(&v, lhor, tr, fam) }),
     };
     rep.run_part(&loss, Duration::from_secs(120));
+    // a held record restated by a response that is not for us: its new refresh time needs a wake-up too
+    let rops = [Op::ForeignRestatesAddr4, Op::ForeignRestatesAddr10];
+    let rgaps = [Op::Idle100, Op::Idle700, Op::Idle1s];
+    let rseq = move |i: u64| -> Vec<Op> { vec![Op::IpCheckHuge, Op::Browse, Op::Announce120, rgaps[(i % 3) as usize], rops[((i / 3) % 2) as usize]] };
+    let (rn, rhor) = if thorough { (6, 12_000) } else { (3, 6_000) };
+    let rseq2 = rseq.clone();
+    let restated = FnPart {
+        name: "records-restated-by-foreign-responses".into(),
+        rule: "a browse has resolved an instance (TTL 120); 0.1 / 0.7 / 1 s later a response about a type nobody browses carries the host's address record again with TTL 4 (thorough tier: also 10, over 12 s); 6 s of silence; same comparison (the refresh queries of the shortened record must come when due)".into(),
+        n: rn,
+        describe: Box::new(move |i| format!("{:?}", rseq2(i))),
+        run: Box::new(move |i, tr| run_case(&rseq(i), rhor, tr)),
+    };
+    rep.run_part(&restated, Duration::from_secs(120));
     // longer horizon for single events (record TTLs, 75-minute defaults)
     let long = FnPart {
         name: "long-horizon-singles".into(),
